@@ -438,3 +438,123 @@ def mixed_routing(u: Unit):
             u.oblige(p, f"mixed.routing[{tag}]", bool(ok), {}, rp)
             u.oblige(p, f"mixed.routing[{tag}].ids_advance", z_int(int_of(ch["nextid"])) == z_int(int_of(h["nextid"])) + z3.Int("n_new"), {}, rp)
         u.cover(f"mixed.routing.cover[{tag}]", ps, lambda p: p.kind == "return")
+
+
+# ---- clusters handed in one by one: Charge.create_charges / Charge.add_charge -----------------------------------------------------------
+CLUSTER_REPLAY = lambda w: {"code": """
+import numpy as np, verif_probes as VP
+VIOLATED, DETAIL = False, 'each cluster is counted once, in the pixel under its own (vertical, horizontal) position'
+det = VP.detector(rows=3, cols=5)          # pixel pitch 1.0: position (v, h) lies in pixel [floor(v), floor(h)]
+n = np.array([5.0, 7.0, 11.0]); v = np.array([0.5, 2.5, 1.5]); h = np.array([4.5, 0.5, 3.5])
+det.charge.add_charge(particle_type='e', particles_per_cluster=n, init_energy=np.array([1.0, 2.0, 3.0]), init_ver_position=v, init_hor_position=h,
+                      init_z_position=np.array([0.1, 0.2, 0.3]), init_ver_velocity=np.array([10.0, 20.0, 30.0]), init_hor_velocity=np.array([40.0, 50.0, 60.0]), init_z_velocity=np.array([70.0, 80.0, 90.0]))
+exp = np.zeros((3, 5)); exp[0, 4] = 5.0; exp[2, 0] = 7.0; exp[1, 3] = 11.0
+fr = det.charge.frame
+if not np.array_equal(det.charge.array, exp):
+    VIOLATED, DETAIL = True, f'clusters {n.tolist()} at (v, h) {list(zip(v.tolist(), h.tolist()))} give the array {det.charge.array.tolist()}'
+elif (fr['number'].tolist() != n.tolist() or fr['position_ver'].tolist() != v.tolist() or fr['position_hor'].tolist() != h.tolist() or fr['init_pos_ver'].tolist() != v.tolist()
+      or fr['init_pos_hor'].tolist() != h.tolist() or fr['position_z'].tolist() != [0.1, 0.2, 0.3] or fr['energy'].tolist() != [1.0, 2.0, 3.0] or fr['velocity_ver'].tolist() != [10.0, 20.0, 30.0]
+      or fr['velocity_hor'].tolist() != [40.0, 50.0, 60.0] or fr['velocity_z'].tolist() != [70.0, 80.0, 90.0] or fr['charge'].tolist() != [-1, -1, -1]):
+    VIOLATED, DETAIL = True, 'cluster table columns do not hold the quantities they are named after: ' + repr(fr.to_dict('list'))
+try:
+    det.charge.add_charge(particle_type='e', particles_per_cluster=np.array([1.0, 2.0]), init_energy=np.zeros(1), init_ver_position=np.zeros(2), init_hor_position=np.zeros(2),
+                          init_z_position=np.zeros(2), init_ver_velocity=np.zeros(2), init_hor_velocity=np.zeros(2), init_z_velocity=np.zeros(2))
+    VIOLATED, DETAIL = True, 'columns of different lengths accepted'
+except ValueError:
+    pass
+""", "expect": "add_charge files every quantity under its own column; the binned array counts each cluster in the pixel under its position"}
+
+COLUMNS = {"number": "particles_per_cluster", "init_energy": "init_energy", "energy": "init_energy", "init_pos_ver": "init_ver_position", "init_pos_hor": "init_hor_position",
+           "init_pos_z": "init_z_position", "position_ver": "init_ver_position", "position_hor": "init_hor_position", "position_z": "init_z_position",
+           "velocity_ver": "init_ver_velocity", "velocity_hor": "init_hor_velocity", "velocity_z": "init_z_velocity"}
+PARAMS = sorted(set(COLUMNS.values()))
+
+
+@unit("C14", "clusters.columns")
+def create_charges_unit(u: Unit):
+    """Charge.create_charges: the table is built from a mapping in which every column holds the argument it is named after
+    (the binning reads 'number', 'position_ver', 'position_hor'); electrons carry charge -1, holes +1; columns of different length
+    or dimension are refused. pandas.DataFrame(mapping) is the boundary."""
+    fi = u.fn(f"{CH}::Charge.create_charges")
+    for ptype in ("e", "h", "x"):
+        for equal in (True, False):
+            cfg = D.install(Cfg("real"))
+            made = {}
+
+            def frame(ex, f, args, kwargs, fr):
+                made["mapping"] = args[0] if args else kwargs.get("data")
+                return D.df_obj(ex, z3.Int("n_clusters"))
+            cfg.lib_overrides["pandas.DataFrame"] = frame
+            n = z3.Int("n_clusters")
+
+            def setup(ex, ptype=ptype, equal=equal):
+                made.clear()
+                ex.st.assume(n >= 0)
+                ex.cols = {}
+                for i, name in enumerate(PARAMS):
+                    ln = n if (equal or name != "init_energy") else n + 1
+                    f = z3.Function(f"col_{name}", z3.IntSort(), z3.RealSort())
+                    ex.cols[name] = ex.st.alloc(HArr((ln,), VDtype("float64"), lambda ix, f=f: VFloat(f(z_int(ix[0])))))
+                return [], {"particle_type": VStr(ptype), **{k: v for k, v in ex.cols.items()}}
+            ps = u.paths(fi, setup, cfg, label=f"create_charges[{ptype},{'equal' if equal else 'unequal'}]")
+            tag = f"{ptype},{'equal' if equal else 'unequal'}"
+            for p in ps:
+                if not equal or ptype == "x":
+                    u.oblige(p, f"clusters.columns.refused[{tag}]", p.kind == "raise" and p.exc_name() == "ValueError" and "mapping" not in made, {}, CLUSTER_REPLAY)
+                    continue
+                if p.kind != "return":
+                    u.oblige(p, f"clusters.columns.no_raise[{tag}]", False, {"exc": p.exc_name()}, CLUSTER_REPLAY)
+                    continue
+                d = p.ex.try_dict(made.get("mapping")) if made.get("mapping") is not None else None
+                got = {k.v: v for k, v in d} if d is not None else {}
+                ok = set(got) == set(COLUMNS) | {"charge"} and all(isinstance(got[c], VRef) and got[c].addr == p.ex.cols[a].addr for c, a in COLUMNS.items())
+                u.oblige(p, f"clusters.columns.each_column_holds_its_own_quantity[{tag}]", bool(ok), {"wrong": str([c for c, a in COLUMNS.items() if not (isinstance(got.get(c), VRef) and got[c].addr == p.ex.cols[a].addr)])}, CLUSTER_REPLAY)
+                ch = p.ex.try_list(got.get("charge")) if got.get("charge") is not None else None
+                sign = -1 if ptype == "e" else 1
+                if ch is not None:
+                    okc = all(isinstance(x, VInt) and x.v == sign for x in ch)
+                else:
+                    c = got.get("charge")
+                    item = c.get(z3.Int("any_i")) if isinstance(c, VSeq) else None
+                    okc = isinstance(item, VInt) and is_conc(item.v) and item.v == sign and z3.is_true(z3.simplify(c.n == z3.If(n > 0, n, 0)))
+                u.oblige(p, f"clusters.columns.charge_sign[{tag}]", bool(okc), {}, CLUSTER_REPLAY)
+            u.cover(f"clusters.columns.cover[{tag}]", ps, lambda p: True)
+
+
+@unit("C14", "clusters.add")
+def add_charge_unit(u: Unit):
+    """Charge.add_charge: every argument reaches create_charges under its own name and the table it returns is what
+    add_charge_dataframe receives (whose effect on the binned array is units binning.* / mixed.*)."""
+    fi = u.fn(f"{CH}::Charge.add_charge")
+    cfg = D.install(Cfg("real"))
+
+    def create(ex, args, kwargs, fr):
+        ex.rec["create"] = (list(args), dict(kwargs))
+        ex.rec["table"] = D.df_obj(ex, z3.Int("n_new"))
+        return ex.rec["table"]
+
+    def add_df(ex, args, kwargs, fr):
+        ex.rec["added"] = (list(args), dict(kwargs))
+        return NONE
+    cfg.contracts[f"{CH}::Charge.create_charges"] = Contract(f"{CH}::Charge.create_charges", create, "clusters.columns")
+    cfg.contracts[f"{CH}::Charge.add_charge_dataframe"] = Contract(f"{CH}::Charge.add_charge_dataframe", add_df, "binning / mixed")
+
+    def setup(ex):
+        D.mk_detector(ex, u)
+        ex.rec = {}
+        ex.cols = {name: VOpaque("col", z3.Int(f"col_{name}"), {"name": name}) for name in PARAMS}
+        return [ex.det_parts["charge"]], {"particle_type": VStr(z3.String("ptype")), **ex.cols}
+    ps = u.paths(fi, setup, cfg, label="Charge.add_charge")
+    for p in ps:
+        if p.kind != "return":
+            u.oblige(p, "clusters.add.no_raise", False, {"exc": p.exc_name()}, CLUSTER_REPLAY)
+            continue
+        r = p.ex.rec
+        a, k = r.get("create", ([], {}))
+        ok = not a and set(k) == set(PARAMS) | {"particle_type"} and all(k[n] is p.ex.cols[n] for n in PARAMS) and isinstance(k.get("particle_type"), VStr)
+        u.oblige(p, "clusters.add.every_argument_under_its_own_name", bool(ok), {"wrong": str([n for n in PARAMS if k.get(n) is not p.ex.cols[n]])}, CLUSTER_REPLAY)
+        a2, k2 = r.get("added", ([], {}))
+        tbl = k2.get("new_charges", a2[1] if len(a2) > 1 else None)
+        me = a2[0] if a2 else None
+        u.oblige(p, "clusters.add.the_new_table_is_added_to_this_container", tbl is r.get("table") and isinstance(me, VRef) and me.addr == p.ex.det_parts["charge"].addr, {}, CLUSTER_REPLAY)
+    u.cover("clusters.add.cover", ps, lambda p: p.kind == "return")
